@@ -207,7 +207,9 @@ def _run(V, work, tier):
                 # a comment inside it, the first pass re-sugars or re-lays it, and the second pass differs ONLY by line breaks
                 # directly after opening brackets
                 import re as _re
-                squeeze = lambda x: _re.sub(r"([(\[])\s+", r"\1", x)
+                # (round 18, seen under another seed: the re-sugared form may also be an ARGUMENT that the first pass keeps on
+                # the head's line and the second moves to its own - the two outputs differ by white space only)
+                squeeze = lambda x: _re.sub(r"\s+", " ", _re.sub(r"([(\[])\s+", r"\1", x)).strip()
                 key = None
                 if f.get("out2") and squeeze(f["out2"]) == squeeze(f["out"]) and _re.search(r"[(\[](lisp:expr|lisp:function|quote)\b[^()\[\]]*(\([^()]*)?;", t):
                     key = "reformat-after-resugar-moves-first-element"
